@@ -131,6 +131,7 @@ func lpSend(w *traceWriter, sz, mtu, variant int, fragOn bool) {
 
 // TestLpSend: sender sweep.
 func TestLpSend(t *testing.T) {
+	defer watchDriver("TestLpSend")()
 	lpSetup()
 	w := newTrace("lp_send.ndjson")
 	defer w.Close()
@@ -238,6 +239,7 @@ func lpRxExec(w *traceWriter, rec *recThread, mtu int, all []lpFrame, order []in
 
 // TestLpRx: receiver interleavings. Messages are identified by the base sequence number of their first fragment.
 func TestLpRx(t *testing.T) {
+	defer watchDriver("TestLpRx")()
 	rec := lpSetup()
 	w := newTrace("lp_rx.ndjson")
 	defer w.Close()
